@@ -198,7 +198,7 @@ def forbidden_scan():
     return hits
 
 
-def proof_step(pid, extra_targets=()):
+def proof_step(pid, extra_targets=(), tier="quick"):
     """Regenerated Gen + make of the property's theorems + assumptions + forbidden grep.
     Returns a dict describing the proof side of the check."""
     t0 = time.time()
@@ -235,6 +235,18 @@ def proof_step(pid, extra_targets=()):
     if hits:
         info["ok"] = False
         info["messages"].append("forbidden declarations: " + "; ".join(hits[:10]))
+    if tier == "thorough" and info["ok"]:
+        # the independent checker re-checks the compiled property file and everything it depends on
+        rc, o, e = sh(["timeout", "1500", "coqchk", "-silent", "-o", "-Q", "theories", "Breadlog",
+                       "Breadlog.Properties.%s" % pid], cwd=COQ, timeout=1600)
+        summary = (o + e)
+        want = ["Axioms: <none>", "type-in-type: <none>", "unsafe (co)fixpoints: <none>", "positivity is assumed: <none>"]
+        missing = [w for w in want if w not in summary]
+        info["coqchk"] = "ok" if rc == 0 and not missing else "failed"
+        info["checker_cmd"] += " && coqchk -silent -o Breadlog.Properties.%s" % pid
+        if rc != 0 or missing:
+            info["ok"] = False
+            info["messages"].append("coqchk: rc=%d, not reported as <none>: %s; %s" % (rc, missing, summary[-800:]))
     info["wall_s"] = time.time() - t0
     return info
 
@@ -371,6 +383,8 @@ class Report:
             cov["checker_cmd"] = self.proof["checker_cmd"]
             cov["theorems"] = self.proof["theorems"]
             cov["print_assumptions"] = self.proof["assumptions"]
+            if "coqchk" in self.proof:
+                cov["coqchk"] = self.proof["coqchk"] + " (coqchk -silent -o: Axioms <none>, no type-in-type, no unsafe fixpoints, no assumed positivity)"
             cov["proof_messages"] = self.proof["messages"]
         cov["trusted_base"] = self.trusted
         cov["known_findings_reported"] = self.known
